@@ -31,6 +31,9 @@ pub struct Sim {
     /// output order of the elements that are placed
     pub placed: Vec<Id>,
     pub new: Vec<Id>,
+    /// the elements that existed at the start or at the end of the last sort_new_items call: everything else is new,
+    /// whatever position key it carries (a merged-in element must not smuggle in the key it had in its own file)
+    pub known: std::collections::HashSet<Id>,
     pub counter: u32,
     pub steps: u64,
 }
@@ -58,7 +61,8 @@ impl Sim {
         };
         let um = uid_map(&file);
         let placed = observe(g, &file)?.into_iter().filter(|x| um.get(x).copied().unwrap_or(0) != 0).collect();
-        Ok(Sim { file, placed, new: vec![], counter: 0, steps: 0 })
+        let known = um.keys().cloned().collect();
+        Ok(Sim { file, placed, new: vec![], known, counter: 0, steps: 0 })
     }
 
     fn apply(&mut self, g: &Grammar, a: Act) -> Result<(), String> {
@@ -98,6 +102,9 @@ impl Sim {
                 let specs: Vec<ESpec> = match j {
                     0 => vec![e("MEASUREMENT", &format!("mm{c}"), "c1")],
                     1 => vec![e("CHARACTERISTIC", &format!("mc{c}"), "c1"), e("MEASUREMENT", &format!("mm{c}"), "c1"), e("UNIT", &format!("mu{c}"), "c1")],
+                    // same name, other content than in the start files "one" / "mixed": added under a fresh name
+                    3 => vec![e("UNIT", &format!("zu{c}"), "c1"), e("MEASUREMENT", "m1", "c2"), e("CHARACTERISTIC", "c1", "c2"), e("MEASUREMENT", &format!("mq{c}"), "c1")],
+                    4 => vec![e("MEASUREMENT", &format!("mr{c}"), "c1"), e("COMPU_METHOD", "cm1", "c2"), e("GROUP", "g1", "c2"), e("MEASUREMENT", "m2", "c1"), e("CHARACTERISTIC", "c2", "c2")],
                     _ => vec![e("COMPU_METHOD", &format!("mcm{c}"), "c1"), e("GROUP", &format!("mg{c}"), "c1"), e("COMPU_METHOD", &format!("mcn{c}"), "c2")],
                 };
                 let text = file_text(g, "other", &specs);
@@ -123,7 +130,7 @@ impl Sim {
         let out = observe(g, &self.file).map_err(|e| (if e.starts_with("panic") { "panic".to_string() } else { "invalid-output".to_string() }, e))?;
         let uid_after = uid_map(&self.file);
         let named = |x: &Id| x.0 != "IF_DATA" && is_list_kind(&x.0) || x.0 == "USER_RIGHTS";
-        let was_placed = |x: &Id| uid_before.get(x).copied().unwrap_or(0) != 0;
+        let was_placed = |x: &Id| self.known.contains(x) && uid_before.get(x).copied().unwrap_or(0) != 0;
         // 1. relative order of the placed elements is unchanged (compared with the last observation)
         let seq: Vec<&Id> = out.iter().filter(|x| self.placed.contains(x)).collect();
         let want: Vec<&Id> = self.placed.iter().collect();
@@ -178,6 +185,9 @@ impl Sim {
         // what counts as placed from now on: elements with a position key, in output order
         self.placed = out.iter().filter(|x| named(x) && uid_after.get(*x).copied().unwrap_or(0) != 0).cloned().collect();
         self.new.clear();
+        if a == Act::S {
+            self.known = uid_after.keys().cloned().collect();
+        }
         Ok(())
     }
 }
@@ -248,7 +258,7 @@ pub fn all_actions() -> Vec<Act> {
     for k in 0..PUSH_KINDS.len() {
         v.push(Act::P(k));
     }
-    for j in 0..3 {
+    for j in 0..5 {
         v.push(Act::M(j));
     }
     v
@@ -479,7 +489,7 @@ pub fn run(tier: &str) -> Run {
     run.require("all-sequences: stable", 1000);
     run.require("long-history: stable", 1000);
     run.extra.insert("bounds".into(), json!({"all_sequences_depth": depth, "long_history_length": len, "actions": acts.len(), "starts": starts.len()}));
-    run.rule = "state = the real A2lFile; actions = sort_new_items (S), push a builder-made element of 6 kinds (P), merge one of 3 small modules with fresh names (M). (i) every action sequence of depth d from 4 start files, observed after each step; (ii) histories of S of length L with at most two other actions at every pair of positions; (iii) 64 consecutive S on files with 1..1000 elements and on 54 files in which three kinds appear in every order in blocks of 2..40 with IF_DATA / USER_RIGHTS in front; insert/sort cycles (40, thorough 200); 2 and 5 new elements of one kind per cycle for 12 (24) cycles on a file with 30+30 elements. Observation: the order of the module's children in write_to_string (reference interpreter). Oracle: relative order of placed elements never changes; after S each new element sits in the run directly behind the last placed element of its kind (behind all placed elements if there is none); no panic / overflow.".into();
+    run.rule = "state = the real A2lFile; actions = sort_new_items (S), push a builder-made element of 6 kinds (P), merge one of 5 small modules (three with fresh names, two that also hold same-name elements with other content, same-name identical elements and a same-name GROUP) (M); an element counts as new from the moment it appears until the next S, whatever position key it carries. (i) every action sequence of depth d from 4 start files, observed after each step; (ii) histories of S of length L with at most two other actions at every pair of positions; (iii) 64 consecutive S on files with 1..1000 elements and on 54 files in which three kinds appear in every order in blocks of 2..40 with IF_DATA / USER_RIGHTS in front; insert/sort cycles (40, thorough 200); 2 and 5 new elements of one kind per cycle for 12 (24) cycles on a file with 30+30 elements. Observation: the order of the module's children in write_to_string (reference interpreter). Oracle: relative order of placed elements never changes; after S each new element sits in the run directly behind the last placed element of its kind (behind all placed elements if there is none); no panic / overflow.".into();
     run
 }
 
